@@ -37,8 +37,6 @@ def anchors():
 
 def worker(i, q, out, lock, args):
     wt = "/tmp/mut-wt-%d" % i
-    run(["git", "-C", "/repo", "worktree", "remove", "--force", wt])
-    run(["git", "-C", "/repo", "worktree", "add", "--detach", wt, "HEAD"])
     b, o = "/tmp/mut-b-%d" % i, "/tmp/mut-o-%d" % i
     while True:
         try:
@@ -98,7 +96,7 @@ def main():
     ap = argparse.ArgumentParser()
     ap.add_argument("--cap", type=int, default=40)
     ap.add_argument("--workers", type=int, default=6)
-    ap.add_argument("--files"); ap.add_argument("--props"); ap.add_argument("--seed", type=int, default=1)
+    ap.add_argument("--files"); ap.add_argument("--props"); ap.add_argument("--skip-prefix", default=""); ap.add_argument("--seed", type=int, default=1)
     ap.add_argument("--out", default=V + "/mut/results.jsonl")
     args = ap.parse_args()
     if args.props: args.props = set(args.props.split(","))
@@ -112,18 +110,23 @@ def main():
     todo = []
     for f, ps in sorted(files.items()):
         if args.files and f not in args.files.split(","): continue
+        if args.skip_prefix and any(f.startswith(x) for x in args.skip_prefix.split(",")): continue
         if args.props and not (set(ps) & args.props): continue
         rc, outp = run([MUTGEN, "-file", "/repo/" + f, "-list"])
         sites = [json.loads(l) for l in outp.splitlines() if l.startswith("{")]
         rnd.shuffle(sites)
-        for s in sites[:args.cap]:
-            if (f, s["id"]) in done: continue
+        fresh = [s for s in sites if (f, s["id"]) not in done]
+        for s in fresh[:args.cap]:
             s.update(file=f, props=ps); todo.append(s)
     rnd.shuffle(todo)
     print(len(todo), "mutants to run;", len(done), "already done", flush=True)
     q = queue.Queue()
     for m in todo: q.put(m)
     out = open(args.out, "a"); lock = threading.Lock()
+    for i in range(args.workers):   # sequentially: concurrent `git worktree add` calls race on the repository lock
+        wt = "/tmp/mut-wt-%d" % i
+        run(["git", "-C", "/repo", "worktree", "remove", "--force", wt])
+        run(["git", "-C", "/repo", "worktree", "add", "--detach", wt, "HEAD"])
     ths = [threading.Thread(target=worker, args=(i, q, out, lock, args)) for i in range(args.workers)]
     for t in ths: t.start()
     for t in ths: t.join()
